@@ -1,6 +1,7 @@
 package subtle
 
 import (
+	"github.com/tink-crypto/tink-go/v2/internal/verifh"
 	"github.com/tink-crypto/tink-go/v2/internal/verifrt"
 	"github.com/tink-crypto/tink-go/v2/internal/verifspec"
 )
@@ -98,5 +99,23 @@ func VerifH_siv_badkey() {
 	verifrt.Assume(kl != 64)
 	_, err := NewAESSIV(verifrt.Bytes("key", kl))
 	verifrt.Assert(err != nil, "NewAESSIV rejects keys that are not 64 bytes")
+	verifrt.Reach("end")
+}
+
+func VerifH_c19_siv() {
+	s, _ := NewAESSIV(verifrt.Bytes("key", 64))
+	pt := verifh.Buf("pt", verifrt.Choice("n", 18), "caller plaintext buffer")
+	ad := verifh.Buf("ad", verifrt.Choice("m", 2), "caller associated-data buffer")
+	ct, err := s.EncryptDeterministically(pt, ad)
+	verifrt.Assert(err == nil, "encrypt succeeds")
+	verifrt.CheckProtected()
+	verifrt.Assert(!verifrt.SameArray(ct, pt) && !verifrt.SameArray(ct, ad), "ciphertext shares no memory with the inputs")
+	cbuf := make([]byte, len(ct), len(ct)+verifrt.Choice("ct.spare", 3))
+	copy(cbuf, ct)
+	verifrt.Protect(cbuf, "caller ciphertext buffer")
+	got, err := s.DecryptDeterministically(cbuf, ad)
+	verifrt.Assert(err == nil, "decrypt succeeds")
+	verifrt.CheckProtected()
+	verifrt.Assert(!verifrt.SameArray(got, cbuf), "plaintext shares no memory with the input")
 	verifrt.Reach("end")
 }
